@@ -181,6 +181,20 @@ def firstResolve {V : Type} (k : Nat) : List (Op V) → Option (Resolution V)
   | [] => none
   | .resolve j r :: rest => if j = k then some r else firstResolve k rest
   | .call _ _ :: rest => firstResolve k rest
+  | .exportObj _ _ :: rest => firstResolve k rest
+  | .unexportObj _ :: rest => firstResolve k rest
+
+/-- The exported objects after a history that started with `ex`: `exportObject` puts (or replaces)
+the object at its path, `unexportObject` removes the path. -/
+def exportsAfter {V : Type} (ex : Exports) : List (Op V) → Exports
+  | [] => ex
+  | .exportObj path o :: rest => exportsAfter (dictSet ex path o) rest
+  | .unexportObj path :: rest => exportsAfter (dictErase ex path) rest
+  | _ :: rest => exportsAfter ex rest
+
+/-- What is exported when operation number `k` of the history arrives. -/
+def exportsAt {V : Type} (ex : Exports) (ops : List (Op V)) (k : Nat) : Exports :=
+  exportsAfter ex (ops.take k)
 
 /-- The result the user code of call `k` produced, now or through its Deferred; `none` while the
 returned Deferred has not fired. -/
@@ -214,6 +228,10 @@ def replyBody {V : Type} (ofSeq : List V → V) (nret : Nat) : Ret V → List V
 /-- Well-formed declarations: every declared interface has a (non-empty) name. -/
 def NamedIfaces (ex : Exports) : Prop :=
   ∀ e ∈ ex, ∀ i ∈ declared e.2, i.name ≠ []
+
+/-- Well-formed history: the initial exports and every object exported later have named interfaces. -/
+def HistoryNamed {V : Type} (ex : Exports) (ops : List (Op V)) : Prop :=
+  ∀ k, NamedIfaces (exportsAt ex ops k)
 
 /-- The repaired dispatcher: `send_error` always produces a text it can send. -/
 def TextTotal {V : Type} (env : Env V) : Prop :=
